@@ -115,6 +115,27 @@ BIND(c19_sel) {
 			fp_param_set(id);
 			RET(fp_param_get());
 			break;
+		case 3: {
+			/* a modulus installed WITHOUT a named identifier (fp_prime_set_dense): the id-th prime of the form
+			 * 2^RLC_FP_BITS - 1 - 2j, j >= 500 * id (deterministic: bn_is_prime uses fixed bases) */
+			bn_t p;
+			bn_null(p);
+			RLC_TRY {
+				bn_new(p);
+				bn_set_2b(p, RLC_FP_BITS);
+				bn_sub_dig(p, p, (dig_t)(1 + 1000 * id));
+				while (!bn_is_prime(p)) {
+					bn_sub_dig(p, p, 2);
+				}
+				fp_prime_set_dense(p);
+			} RLC_CATCH_ANY {
+				RLC_THROW(ERR_CAUGHT);
+			} RLC_FINALLY {
+				bn_free(p);
+			}
+			RET(fp_param_get());
+			break;
+		}
 		default:
 			vs_die("c19_sel: bad kind");
 	}
